@@ -37,9 +37,15 @@ def rname(rnd):
 
 def gen_case(seed, tier, idx):
     rnd = mkrnd(seed, "memmap", idx)
-    kind = ["mixed", "mixed", "names", "tree", "big"][idx % 5]
+    kind = ["mixed", "mixed", "names", "tree", "big", "dense", "anon"][idx % 7]
     ops = []
     maps = []       # (aw, dw, al) of successfully created maps (generator's view)
+    if kind == "dense":
+        return gen_dense(rnd, tier)
+    if kind == "tree" and rnd.random() < 0.8:
+        return gen_tree(rnd, tier)
+    if kind == "anon":
+        return gen_anon(rnd, tier)
 
     def newmap():
         if kind == "big":
@@ -114,6 +120,196 @@ def gen_case(seed, tier, idx):
         observe()
     ops.append(["obs", "full"])
     return {"engine": "memmap", "kind": kind, "ops": ops}
+
+
+def gen_dense(rnd, tier):
+    """Directed stream: dense windows (ratio 2/4/8) with explicitly placed neighbours aimed at every address
+    of the window's span and its borders, before and after the window is added."""
+    ops = []
+    pdw = rnd.choice([16, 32, 32, 64])
+    ratio = pdw // 8
+    lr = ratio.bit_length() - 1
+    paw = rnd.choice([4, 5, 6, 7])
+    pal = rnd.choice([0, 0, 1])
+    ops.append(["new", paw, pdw, pal])                              # map 0: parent
+    nchild = rnd.choice([1, 2, 2])
+    childs = []
+    for c in range(nchild):
+        caw = rnd.choice([lr, lr + 1, lr + 1, lr + 2, lr + 3])
+        cal = rnd.choice([lr, lr, lr + 1])
+        ops.append(["new", caw, 8, cal])
+        childs.append((1 + c, caw))
+        for r in range(rnd.randint(0, 2)):
+            ops.append(["res", 1 + c, 10 * c + r, 1, {"t": [rnd.choice(["r", "q"]), 10 * c + r]}, rnd.choice([1, ratio, ratio]),
+                        None, None])
+    ops.append(["obs"])
+    rid = [40]
+
+    def neighbour(lo, hi):
+        a = rnd.randint(max(0, lo), max(0, hi))
+        rid[0] += 1
+        ops.append(["res", 0, rid[0], 1, {"t": ["n", rid[0]]}, rnd.choice([1, 1, 2, ratio]), a, None])
+        ops.append(["obs"])
+    cursor = 0
+    for (ci, caw) in childs:
+        span = max(1, (1 << caw) // ratio)
+        sparse = rnd.choice([False, False, False, None, True])
+        mode = rnd.random()
+        if mode < 0.5:
+            # neighbours first, aimed at where the window will go (implicitly) and at its last addresses
+            start = -(-cursor // span) * span
+            for _ in range(rnd.randint(1, 3)):
+                pick = rnd.random()
+                if pick < 0.6:
+                    neighbour(start + span - ratio, start + span + 1)
+                else:
+                    neighbour(start - 1, start + span + 1)
+            addr = None if rnd.random() < 0.6 else rnd.choice([start, start + span, start + 2 * span, 0])
+            ops.append(["win", 0, ci, {"t": ["w", ci]} if rnd.random() < 0.7 else None, addr, sparse])
+            ops.append(["obs"])
+        else:
+            addr = None if rnd.random() < 0.5 else rnd.choice([0, span, 2 * span, 3 * span])
+            ops.append(["win", 0, ci, {"t": ["w", ci]} if rnd.random() < 0.7 else None, addr, sparse])
+            ops.append(["obs"])
+            start = addr if addr is not None else -(-cursor // span) * span
+            for _ in range(rnd.randint(2, 5)):
+                neighbour(start - 2, start + span + 2)
+        cursor = start + span
+        if rnd.random() < 0.3:
+            ops.append(["align", 0, rnd.choice([0, 1, 2, 3])]); ops.append(["obs"])
+    for _ in range(rnd.randint(0, 3)):
+        rid[0] += 1
+        ops.append(["res", 0, rid[0], 1, {"t": ["t", rid[0]]}, rnd.choice([1, 2, 3]), None, rnd.choice([None, 0, 1])])
+        ops.append(["obs"])
+    ops.append(["obs", "full"])
+    return {"engine": "memmap", "kind": "dense", "ops": ops}
+
+
+def gen_tree(rnd, tier):
+    """Directed stream: trees of maps 2-4 levels deep whose data widths change along the way (sparse windows
+    narrowing the width, dense windows of ratio 2/4, equal-width windows), named and anonymous, resources at every
+    level; built bottom-up because a map is frozen once it is used as a window."""
+    ops = []
+    depth = rnd.choice([2, 3, 3, 4])
+    # level 0 = root ... level depth-1 = leaves; widths never increase downwards
+    dws = [rnd.choice([8, 16, 32])]
+    for _ in range(depth - 1):
+        dws.append(rnd.choice([w for w in (8, 16, 32) if w <= dws[-1]]))
+    maps = []          # (level, aw, dw, al)
+    per_level = [[] for _ in range(depth)]
+    for lv in range(depth - 1, -1, -1):
+        n = 1 if lv == 0 else rnd.choice([1, 1, 2])
+        for _ in range(n):
+            aw = min(10, 2 + (depth - 1 - lv) * 2 + rnd.choice([0, 1]))
+            al = rnd.choice([0, 0, 1, 2])
+            ops.append(["new", aw, dws[lv], al])
+            per_level[lv].append(len(maps))
+            maps.append((lv, aw, dws[lv], al))
+    rid = [0]
+    used = set()
+
+    def name():
+        while True:
+            n = [rnd.choice(PARTS) for _ in range(rnd.choice([1, 1, 2]))]
+            if rnd.random() < 0.8:
+                n = n + [len(used)]
+            if tuple(map(repr, n)) not in used:
+                used.add(tuple(map(repr, n)))
+                return {"t": n}
+    for lv in range(depth - 1, -1, -1):
+        for mi in per_level[lv]:
+            _, aw, dw, al = maps[mi]
+            for _ in range(rnd.randint(0 if lv < depth - 1 else 1, 2)):
+                rid[0] += 1
+                ops.append(["res", mi, rid[0], 1, name(), rnd.choice([1, 1, 2, 4]), None, rnd.choice([None, None, 1, 2])])
+            if lv < depth - 1:
+                for ci in per_level[lv + 1]:
+                    if rnd.random() < 0.15:
+                        continue
+                    cdw = maps[ci][2]
+                    if cdw == dw:
+                        sparse = rnd.choice([None, None, True, False])
+                    else:
+                        sparse = rnd.choice([True, True, False])
+                    ops.append(["win", mi, ci, name() if rnd.random() < 0.6 else None,
+                                None if rnd.random() < 0.7 else rnd.choice([0, 1 << maps[ci][1], 2 << maps[ci][1]]), sparse])
+                    ops.append(["obs"])
+            if rnd.random() < 0.3:
+                rid[0] += 1
+                ops.append(["res", mi, rid[0], 1, name(), 1, None, None])
+    ops.append(["obs", "full"])
+    return {"engine": "memmap", "kind": "tree", "ops": ops}
+
+
+def gen_anon(rnd, tier):
+    """Directed stream: anonymous windows whose names are absorbed, each followed IMMEDIATELY by additions whose
+    names equal / prefix / extend / are unrelated to an absorbed name; nested anonymous windows; a second anonymous
+    window colliding with the first."""
+    ops = []
+    ops.append(["new", rnd.choice([5, 6, 7]), 8, 0])             # map 0: root
+    nm = []                                                        # names per map (generator's view, may be refused)
+    nm.append([])
+    rid = [0]
+
+    def pick_name():
+        n = [rnd.choice(PARTS) for _ in range(rnd.choice([1, 2, 2, 3]))]
+        return n
+
+    def related(base):
+        k = rnd.random()
+        if k < 0.3:
+            return list(base)                                      # equal
+        if k < 0.5 and len(base) > 1:
+            return list(base[:rnd.randint(1, len(base) - 1)])      # proper prefix
+        if k < 0.7:
+            return list(base) + [rnd.choice(PARTS)]                # extension
+        if k < 0.85:
+            # same spelling, other type at one position ("0" vs 0): legal, must not be refused
+            j = rnd.randrange(len(base))
+            p = base[j]
+            q = int(p) if isinstance(p, str) and p.isdigit() else (str(p) if isinstance(p, int) else p + "x")
+            return list(base[:j]) + [q] + list(base[j + 1:])
+        return pick_name()
+
+    def add_res(m, name):
+        rid[0] += 1
+        ops.append(["res", m, rid[0], 1, {"t": name}, 1, None, None])
+        nm[m].append(name)
+        ops.append(["obs"])
+    nchild = rnd.randint(1, 3)
+    for c in range(1, nchild + 1):
+        ops.append(["new", rnd.choice([2, 3]), 8, 0]); nm.append([])
+        for _ in range(rnd.randint(1, 3)):
+            add_res(c, pick_name())
+    # optionally nest: child 2 absorbs child 1... only when there are >= 2 children
+    order = list(range(1, nchild + 1))
+    if nchild >= 2 and rnd.random() < 0.4:
+        ops.append(["win", 2, 1, None, None, None]); ops.append(["obs"])
+        nm[2] += nm[1]
+        order = [c for c in order if c != 1]
+    if rnd.random() < 0.5:
+        add_res(0, pick_name())
+    for c in order:
+        anon = rnd.random() < 0.8
+        ops.append(["win", 0, c, None if anon else {"t": pick_name()}, None, None])
+        # no observation in between: the very next call is the interesting one
+        pool = nm[c] if (anon and nm[c]) else (nm[0] or [pick_name()])
+        for _ in range(rnd.randint(1, 3)):
+            base = rnd.choice(pool)
+            if rnd.random() < 0.75:
+                rid[0] += 1
+                ops.append(["res", 0, rid[0], 1, {"t": related(base)}, 1, None, None])
+            else:
+                # a fresh map added as a named window with a related name
+                ops.append(["new", 1, 8, 0]); nm.append([])
+                ops.append(["win", 0, len(nm) - 1, {"t": related(base)}, None, None])
+            if rnd.random() < 0.5:
+                ops.append(["obs"])
+        ops.append(["obs"])
+        if anon:
+            nm[0] += nm[c]
+    ops.append(["obs", "full"])
+    return {"engine": "memmap", "kind": "anon", "ops": ops}
 
 
 # ----------------------------------------------------------------------------- model encoding
@@ -483,7 +679,8 @@ def oracle(case, obs):
     def dec_name(nm):
         return [("s", inv[p[1]]) if p[0] == 0 else ("i", p[1]) for p in nm]
     last_obs = None
-    failed_since = False
+    failed_since = False     # some call since the last observation raised ...
+    ok_since = False         # ... and none succeeded (then every answer must be unchanged)
     for k, (op, o) in enumerate(zip(ops, obs)):
         if op[0] == "new":
             ok = all(isint(x) for x in op[1:]) and op[1] > 0 and op[2] > 0 and op[3] >= 0
@@ -497,9 +694,10 @@ def oracle(case, obs):
             # C02: a failed call left every answer unchanged
             cur = [[m[:4] + [m[6]], op[1], m[4], m[5]] for m in o]
             same = lambda x, y: x[0] == y[0] and (x[1] != y[1] or x[2:] == y[2:])
-            if failed_since and last_obs is not None and not all(same(x, y) for x, y in zip(cur, last_obs)):
+            if failed_since and not ok_since and last_obs is not None and not all(same(x, y) for x, y in zip(cur, last_obs)):
                 out.append(("C02", k, "a call that raised changed a query result or the placement cursor"))
             failed_since = False
+            ok_since = False
             last_obs = cur
             for mi, (m, sp) in enumerate(zip(o, specs)):
                 rs, ws, ps, ar, dc, fr, cursor = m
@@ -571,12 +769,16 @@ def oracle(case, obs):
         exp = [ERRCLS[r]] if isinstance(r, str) else [0] + list(r)
         if o[0] != 0:
             failed_since = True
+        else:
+            ok_since = True
         if o != exp:
             pid = PID_OF.get(r, "C02") if isinstance(r, str) else "C02"
-            # an unexpected refusal: was it the namespace that refused?
-            if not isinstance(r, str) and o[0] != 0:
-                pid = "C02"
-            out.append((pid, k, f"{op} returned {o}, the property requires {exp} ({r if isinstance(r, str) else 'success'})"))
+            text = f"{op} returned {o}, the property requires {exp} ({r if isinstance(r, str) else 'success'})"
+            out.append((pid, k, text))
+            if not isinstance(r, str) and o[0] != 0 and op[0] in ("res", "win"):
+                # a request that is legal in every respect (name included) was refused: C18's "a legal name is
+                # never refused" is breached as well as C02's placement rule, whichever check made the refusal
+                out.append(("C18", k, "a legal request (legal name included) was refused: " + text))
             return out
     return out
 
